@@ -191,7 +191,11 @@ class Models:
             c.set_dest({(): T(("unit", "()"))})
             return [c.st]
 
-        @reg("std::slice::<impl [T]>::to_vec")
+        @reg("std::slice::<impl [T]>::to_vec",
+             "<std::vec::Vec<T, A> as std::clone::Clone>::clone",
+             "std::slice::<impl std::borrow::ToOwned for [T]>::to_owned",
+             "<std::vec::Vec<T> as std::convert::From<&[T]>>::from",
+             "<std::vec::Vec<T> as std::convert::From<&'a [T]>>::from")
         def to_vec(c):
             v = c.argv(0)
             out = {(): T(("app", "to_vec", (v,)))}
@@ -449,7 +453,9 @@ class Models:
                 c.set_dest({(): ("b", ("cmp", "Eq", n[1], lin.const(0)))})
             return [c.st]
 
-        @reg("std::vec::Vec::new", "std::collections::VecDeque::new", "std::collections::HashMap::new")
+        @reg("std::vec::Vec::new", "std::collections::VecDeque::new", "std::collections::HashMap::new",
+             "std::vec::Vec::with_capacity", "std::collections::VecDeque::with_capacity", "std::collections::HashMap::with_capacity",
+             "std::string::String::new", "std::string::String::with_capacity")
         def new_empty(c):
             c.set_dest({(): T(("app", c.base, c.site, ())), ("$len",): ICONST(0)})
             return [c.st]
@@ -678,6 +684,8 @@ class Models:
                 s = start if start is not None else lin.const(0)
                 e = end if end is not None else ln
                 c.eng.require(c.st, c.fr, c.bb, "range", "drain(a..b): a <= b <= len", [lin.le(s, e), lin.le(e, ln)])
+                if c.eng.record:
+                    c.eng.drain_log.append((c.node, s, e))
                 c.eng.write(c.st, v[1], v[2] + ("$len",), I(lin.sub(ln, lin.sub(e, s))), c.node)
                 c.set_dest({(): T(("app", "drain", c.site, ())), ("$drain_from",): I(s), ("$drain_to",): I(e)})
             else:
@@ -1008,12 +1016,145 @@ class Models:
             c.set_dest({(): T(("app", c.base.rsplit("::", 1)[-1], (c.argv(0),))), ("$len",): ICONST(2)})
             return [c.st]
 
-        @reg("std::cmp::max", "std::cmp::min")
+        # ---------------- integer conversions and helpers commonly produced by refactorings
+        @reg("<T as std::convert::Into<U>>::into", "<T as std::convert::From<T>>::from")
+        def into_(c):
+            prog = c.eng.prog
+            v = c.argv(0)
+            sti, dti = c.args[0][1], c.dest[2]
+            if v[0] == "i" and sti is not None and dti is not None and prog.types[sti]["k"] in ("int", "bool", "char") and prog.types[dti]["k"] == "int":
+                rs, rd = prog.int_range(sti), prog.int_range(dti)
+                if rs is not None and rd is not None and rd[0] <= rs[0] and rs[1] <= rd[1]:
+                    c.set_dest({(): v})
+                    return [c.st]
+            return None
+
+        def widening_from(c):
+            prog = c.eng.prog
+            v = c.argv(0)
+            dti = c.dest[2]
+            if v[0] in ("i",) and dti is not None and prog.types[dti]["k"] == "int":
+                rd = prog.int_range(dti)
+                lo, hi = c.st.ctx.bounds(v[1])
+                if rd is not None and lo is not None and hi is not None and rd[0] <= lo and hi <= rd[1]:
+                    c.set_dest({(): v})
+                    return [c.st]
+            return None
+        for src_ in ("u8", "u16", "u32", "bool"):
+            for dst_ in ("u16", "u32", "u64", "usize", "i32", "i64", "u128"):
+                tb["std::convert::num::<impl std::convert::From<%s> for %s>::from" % (src_, dst_)] = widening_from
+
+        def try_from_int(c):
+            """<narrow as TryFrom<wide>>::try_from(x): Ok(x) iff x fits"""
+            prog = c.eng.prog
+            v = c.argv(0)
+            m = re.search(r"TryFrom<(\w+)> for (\w+)>", c.base)
+            bits = {"u8": 8, "u16": 16, "u32": 32, "u64": 64, "usize": 64}
+            if v[0] != "i" or m is None or m.group(2) not in bits:
+                return None
+            hi = (1 << bits[m.group(2)]) - 1
+            outs = []
+            s_ok = c.st.fork()
+            cons = [lin.le(lin.const(0), v[1]), lin.le(v[1], lin.const(hi))]
+            if not s_ok.ctx.infeasible_with(cons):
+                for cc in cons:
+                    s_ok.ctx.add(cc)
+                c.set_dest({("$discr",): ICONST(0), (("v", 0), 0): v}, s_ok)
+                outs.append(s_ok)
+            s_err = c.st
+            if not s_err.ctx.infeasible_with([lin.lt(lin.const(hi), v[1])]):
+                s_err.ctx.add(lin.lt(lin.const(hi), v[1]))
+                c.set_dest({("$discr",): ICONST(1), (("v", 1), 0): T(("app", "TryFromIntError", c.site, ()))}, s_err)
+                outs.append(s_err)
+            return outs
+        for src_ in ("usize", "u64", "u32", "u16"):
+            for dst_ in ("u8", "u16", "u32"):
+                if src_ != dst_:
+                    tb["std::convert::num::<impl std::convert::TryFrom<%s> for %s>::try_from" % (src_, dst_)] = try_from_int
+
+        def int_cmp(c):
+            """a.cmp(&b) on integers: Less (-1) / Equal (0) / Greater (1)"""
+            a, b = c.argv(0), c.argv(1)
+            va = c.eng.read(c.st, a[1], a[2]) if a[0] == "r" else a
+            vb = c.eng.read(c.st, b[1], b[2]) if b[0] == "r" else b
+            if va[0] != "i" or vb[0] != "i":
+                return None
+            outs = []
+            # MIR switches on the i8 discriminant as a raw bit pattern: Less (-1) is 255
+            cases = [(255, [lin.lt(va[1], vb[1])]), (0, [lin.le(va[1], vb[1]), lin.le(vb[1], va[1])]), (1, [lin.lt(vb[1], va[1])])]
+            for i, (dv, cons) in enumerate(cases):
+                s2 = c.st.fork() if i < 2 else c.st
+                if s2.ctx.infeasible_with(cons):
+                    continue
+                for cc in cons:
+                    s2.ctx.add(cc)
+                c.set_dest({("$discr",): ICONST(dv)}, s2)
+                outs.append(s2)
+            return outs
+        for t_ in ("u8", "u16", "u32", "u64", "usize", "i32", "i64"):
+            tb["core::cmp::impls::<impl std::cmp::Ord for %s>::cmp" % t_] = int_cmp
+            tb["std::cmp::impls::<impl std::cmp::Ord for %s>::cmp" % t_] = int_cmp
+
+        @reg("core::num::<impl u16>::checked_add", "core::num::<impl usize>::checked_add", "core::num::<impl u8>::checked_add",
+             "core::num::<impl u32>::checked_add", "core::num::<impl u64>::checked_add",
+             "core::num::<impl u16>::checked_sub", "core::num::<impl usize>::checked_sub", "core::num::<impl u8>::checked_sub",
+             "core::num::<impl u32>::checked_sub", "core::num::<impl u64>::checked_sub")
+        def checked_arith(c):
+            a, b = c.argv(0), c.argv(1)
+            if a[0] != "i" or b[0] != "i":
+                return None
+            bits = {"u8": 8, "u16": 16, "u32": 32, "u64": 64, "usize": 64}[re.search(r"impl (\w+)>", c.base).group(1)]
+            hi = (1 << bits) - 1
+            r = lin.sub(a[1], b[1]) if c.base.endswith("checked_sub") else lin.add(a[1], b[1])
+            outs = []
+            s_some = c.st.fork()
+            cons = [lin.le(lin.const(0), r), lin.le(r, lin.const(hi))]
+            if not s_some.ctx.infeasible_with(cons):
+                for cc in cons:
+                    s_some.ctx.add(cc)
+                c.set_dest({("$discr",): ICONST(1), (("v", 1), 0): I(r)}, s_some)
+                outs.append(s_some)
+            s_none = c.st
+            bad = [lin.lt(r, lin.const(0))] if c.base.endswith("checked_sub") else [lin.lt(lin.const(hi), r)]
+            if not s_none.ctx.infeasible_with(bad):
+                s_none.ctx.add(bad[0])
+                c.set_dest({("$discr",): ICONST(0)}, s_none)
+                outs.append(s_none)
+            return outs
+
+        @reg("core::num::<impl u16>::saturating_add", "core::num::<impl usize>::saturating_add", "core::num::<impl u8>::saturating_add",
+             "core::num::<impl u32>::saturating_add", "core::num::<impl u64>::saturating_add")
+        def saturating_add(c):
+            a, b = c.argv(0), c.argv(1)
+            if a[0] != "i" or b[0] != "i":
+                return None
+            bits = {"u8": 8, "u16": 16, "u32": 32, "u64": 64, "usize": 64}[re.search(r"impl (\w+)>", c.base).group(1)]
+            hi = (1 << bits) - 1
+            r = lin.add(a[1], b[1])
+            outs = []
+            s1 = c.st.fork()
+            if not s1.ctx.infeasible_with([lin.le(r, lin.const(hi))]):
+                s1.ctx.add(lin.le(r, lin.const(hi)))
+                c.set_dest({(): I(r)}, s1)
+                outs.append(s1)
+            s2 = c.st
+            if not s2.ctx.infeasible_with([lin.lt(lin.const(hi), r)]):
+                s2.ctx.add(lin.lt(lin.const(hi), r))
+                c.set_dest({(): ICONST(hi)}, s2)
+                outs.append(s2)
+            return outs
+
+        @reg("std::cmp::max", "std::cmp::min", "std::cmp::Ord::max", "std::cmp::Ord::min",
+             "std::cmp::impls::<impl std::cmp::Ord for usize>::max", "std::cmp::impls::<impl std::cmp::Ord for usize>::min", "std::cmp::impls::<impl std::cmp::Ord for u16>::max", "std::cmp::impls::<impl std::cmp::Ord for u16>::min",
+             "core::cmp::impls::<impl std::cmp::Ord for usize>::max", "core::cmp::impls::<impl std::cmp::Ord for usize>::min",
+             "core::cmp::impls::<impl std::cmp::Ord for u16>::max", "core::cmp::impls::<impl std::cmp::Ord for u16>::min")
         def maxmin(c):
             a, b = c.argv(0), c.argv(1)
             if a[0] != "i" or b[0] != "i":
                 return None
             ismax = c.base.endswith("max")
+            if a[0] == "r" or b[0] == "r":
+                return None
             outs = []
             s1 = c.st.fork()
             # a <= b
